@@ -370,7 +370,7 @@ impl Prop for C04 {
     fn case_count(&self, tier: Tier) -> u64 {
         match tier {
             Tier::Quick => 6000,
-            Tier::Thorough => 300_000,
+            Tier::Thorough => 200_000,
         }
     }
     fn fixed_cases(&self, tier: Tier) -> Vec<Case> {
@@ -407,7 +407,7 @@ impl Prop for C04 {
         v.push(lit("overflow-other-thread", &["add@1 1 none 0 2147483647", "add@0 1 none 0 1", "merge@0 2 2147483646", "ser", "merge@1 2 1"]));
         let (max_full, max_red, max_c, max_p) = match tier {
             Tier::Quick => (3, 4, 5, 4),
-            Tier::Thorough => (4, 5, 7, 5),
+            Tier::Thorough => (4, 5, 7, 4),
         };
         for len in 1..=3 {
             self.exhaustive_profile(len, false, &mut v);
